@@ -219,7 +219,7 @@ namespace
          "fill-enabled case with >=4 fresh allocations checked for the new-memory pattern and >=2 "
          "releases to a pool checked for the freed-memory pattern"},
         {"C18", O_CORE | O_CAPS, FB(F_POOL) | FB(F_COLL) | FB(F_STACK) | FB(F_ITER) | FB(F_STATIC) | FB(F_LOWLEVEL),
-         {30, 14, 6, 4, 24, 6, 3, 3, 3, 1, 4, 1, 1, 0, 0, 1, 0, 1, 3, 1, 10, 0, 0, 0, 0, 0, 0, 12, 0}, 160, false,
+         {30, 14, 6, 4, 24, 6, 3, 3, 3, 1, 4, 1, 1, 0, 0, 1, 0, 1, 3, 1, 10, 3, 0, 0, 0, 0, 0, 12, 0}, 160, true,
          "history with >=1 array and >=1 upstream growth whose counter deltas were all checked, or a "
          ">=1 successful capacity probe, or a min_block_size check with n > 255 or a node size that is not a "
          "multiple of 8"},
@@ -940,6 +940,19 @@ namespace
             bool     threw;
             last_injected = false;
             void*    p = do_alloc(r, threw);
+            if (!p && last_injected && has(O_CAPS) && !failed
+                && (s->fam == F_POOL || s->fam == F_COLL || s->fam == F_STACK))
+            {
+                // C18: a request that failed because the upstream failed consumed nothing - what the
+                // next growth will provide (next_capacity) is what it was before
+                auto f = snap(r.size);
+                // (only if no block was acquired before the failing call: a collection may grow once
+                // successfully and fail on a second growth of the same request)
+                if (f.blocks == b.blocks && f.v.size() > 1 && b.v.size() > 1 && f.v[1] != b.v[1])
+                    fail("caps-delta", "next_capacity() went from " + std::to_string(b.v[1]) + " to "
+                                           + std::to_string(f.v[1]) + " across a request that failed in the upstream "
+                                                                      "allocator and consumed nothing");
+            }
             if (!p && last_injected && has(O_FAIL) && !failed)
             {
                 // The request failed only because the upstream failed. "A failed request leaves the
@@ -2071,6 +2084,7 @@ namespace
                 ++ci.noops;
                 return;
             }
+            Slab::get().fail_at(0); // an armed upstream fault is not meant for the auxiliary pools built here
             size_t node_size = 1 + op.a % 512;
             size_t n         = 1 + op.b % 2000;
             if ((op.b / 2000) % 3 == 0)
@@ -2983,7 +2997,8 @@ namespace
                              s->nominal_size(), ctx.block_size);
             if (s->fam == F_ITER)
                 iterN = s->iteration_info(2);
-            if (mode.faults && P(7) % 4 != 0 && s->has_upstream)
+            // (C18 arms faults through arm_fault ops only: most of its cases need undisturbed growth)
+            if (mode.faults && P(7) % 4 != 0 && s->has_upstream && std::string(mode.prop) != "C18")
                 Slab::get().fail_at(unsigned(up_calls()) + 1 + (P(7) / 4) % 12);
             blocks_peak = own_blocks();
             if (has(O_SIBLING))
